@@ -94,6 +94,16 @@ def gen_workload(rng, mode):
         for _ in range(rng.randint(1, 3)):
             keys.append({'pattern': rng.choice(gen.ROOT_NTH_POOL), 'ns': None, 'custom': None, 'flags': 0,
                          'uses_scope': False, 'special': 1})
+    # numeric twins: the same selector with one number changed by one (two compiled structures that differ in one
+    # integer); a call with one of them is followed by the same call with its twin
+    twins = {}
+    for k in range(len(keys)):
+        if rng.random() < 0.5 and len(twins) < 6:
+            tw = gen.numeric_neighbour(rng, keys[k]['pattern'])
+            if tw is not None and tw != keys[k]['pattern']:
+                keys.append(dict(keys[k], pattern=tw))
+                twins[k] = len(keys) - 1
+                twins[len(keys) - 1] = k
     history = []
     cur = list(slots)
     gens = []       # open generator ids
@@ -111,6 +121,11 @@ def gen_workload(rng, mode):
                                                                     'RuntimeError'])]
             history.append(op)
             calls.append(len(history) - 1)
+            if op['key'] in twins and rng.random() < 0.6:
+                op2 = dict(op, key=twins[op['key']])
+                op2.pop('fault', None)
+                history.append(op2)
+                calls.append(len(history) - 1)
         elif r < 0.58 and calls:
             op = dict(history[rng.choice(calls)])
             op.pop('fault', None)
